@@ -226,6 +226,35 @@ Section Params.
       - apply IH. unfold upd. rewrite N.eqb_sym, Ew. exact E. }
     apply G. reflexivity.
   Qed.
+
+  (* hence a wallet's outputs are a function of its OWN heartbeats only: two histories in which
+     wallet [w] does the same things give [w] the same outputs, whatever all the other wallets
+     (any keys different from [w]'s) do in them *)
+  Theorem own_history_only : forall w h h',
+      only w h = only w h' -> outs_of w h (run h) = outs_of w h' (run h').
+  Proof. intros w h h' E. rewrite !wallets_independent, E. reflexivity. Qed.
+
+  Definition without (b : N) (h : list input) : list input :=
+    filter (fun i => negb (N.eqb (i_wallet i) b)) h.
+
+  Lemma only_without : forall a b h, a <> b -> only a (without b h) = only a h.
+  Proof.
+    intros a b h Hab. unfold only, without. induction h as [|i t IH]; [reflexivity|].
+    cbn [filter]. destruct (N.eqb_spec (i_wallet i) b) as [Eb|Eb]; cbn [negb].
+    - destruct (N.eqb_spec (i_wallet i) a) as [Ea|Ea]; [congruence|exact IH].
+    - cbn [filter]. destruct (N.eqb (i_wallet i) a); [f_equal|]; exact IH.
+  Qed.
+
+  (* two wallets with DIFFERENT keys — any two different keys — do not interfere: erasing all
+     heartbeats of [b] from the history changes nothing of what [a] observes (claims, errors,
+     counter values), and vice versa *)
+  Theorem different_keys_do_not_interfere : forall a b h,
+      a <> b ->
+      outs_of a h (run h) = outs_of a (without b h) (run (without b h)) /\
+      outs_of b h (run h) = outs_of b (without a h) (run (without a h)).
+  Proof.
+    intros a b h Hab. split; apply own_history_only; symmetry; apply only_without; congruence.
+  Qed.
 End Params.
 
 (* ---------- readable corollaries (restated in Props/C36.v) ---------- *)
@@ -308,3 +337,26 @@ Example escalation_example :
   map o_claim (Concrete.run [ex_low 1; ex_low 2; ex_low 1; ex_low 1])
   = [None; None; None; Some ([3%N; 7%N], true)].
 Proof. vm_compute. reflexivity. Qed.
+
+(* the same on two wallets whose keys are a point P and its negation −P (same X; the keys of
+   seeded/C36b's demonstration): they agree on their first 33 bytes and are two wallets *)
+Definition key_P : N :=
+  0x0471e30bca60f6548d7b42582a478ea37ada63b402af7b3ddd57f0c95bb6843175aa0d2053a91a050a6797d85c38f2909cb7027f2344a01986aa2f9f8ca7a0c289%N.
+Definition key_negP : N :=
+  0x0471e30bca60f6548d7b42582a478ea37ada63b402af7b3ddd57f0c95bb684317555f2dfac56e5faf5986827a3c70d6f6348fd80dcbb5fe67955d06072585f39a6%N.
+Definition ex_ok (w : N) : input :=
+  {| i_wallet := w; i_stake := StPos; i_valid := true; i_expiry := 1000;
+     i_sign := SgOk 70 [9%N]; i_claim_fails := false |}.
+(* 04‖X‖Y with (X, Y) on secp256k1: Y² = X³ + 7 (mod p) *)
+Definition on_curve (k : N) : bool :=
+  (let p := 2 ^ 256 - 2 ^ 32 - 977 in
+   let x := (k / 2 ^ 256) mod 2 ^ 256 in let y := k mod 2 ^ 256 in
+   (k / 2 ^ 512 =? 4) && (x <? p) && (y <? p) && ((y * y) mod p =? (x * x * x + 7) mod p))%N.
+Example related_keys_example :
+  on_curve key_P = true /\ on_curve key_negP = true /\
+  (key_P / 2 ^ 256 = key_negP / 2 ^ 256)%N /\ key_P <> key_negP /\
+  map o_claim (Concrete.run [ex_low key_P; ex_low key_negP; ex_low key_P])
+  = [None; None; None] /\
+  map o_claim (Concrete.run [ex_low key_P; ex_low key_P; ex_ok key_negP; ex_low key_P])
+  = [None; None; None; Some ([3%N; 7%N], true)].
+Proof. vm_compute. repeat split; discriminate. Qed.
